@@ -345,6 +345,7 @@ def write_replay(prop, family, idx, verif_seed, tier, result, minimized, shrink_
         "events_head": minimized["events_head"],
         "original_values_len": len(result["values"]),
         "shrink_runs": shrink_runs,
+        "python_optimize": bool(sys.flags.optimize),
         "repo": repo_state,
     }
     with open(path, "w") as f:
@@ -596,6 +597,7 @@ def write_evidence(prop, tier, verif_seed, level, results, wall, meta, violation
         "run_isolation": "every run executes in a forked child of the warmed-up pool worker (C17: per configuration, fault runs fork again); "
                          "module-level state never carries from one run to another",
         "planned_runs": meta.get("planned_runs"),
+        "python_optimize_pass": meta.get("python_optimize_pass"),
     }
     cov[meta.get("time_key", "sim_time_s")] = round(sim_time, 3) if meta.get("time_key", "sim_time_s") == "sim_time_s" else steps
     cov.update(meta.get("extra", {}))
